@@ -932,4 +932,47 @@ SweepEvOK(e, idx) ==
        /\ Chk("S2", idx, \A k \in 1..Len(e.beams) : S2Order(e.beams[k]))
        /\ Chk("S3", idx, \A k \in 1..Len(e.beams) : S3Winding(e.fr, e.beams[k]))
        /\ Chk("S4", idx, \A k \in 1..Len(e.beams) : S4Contribution(e.ct, e.fr, e.beams[k]))
+
+(***************************************************************************)
+(* The small deterministic helpers of the API (not among the listed        *)
+(* properties; validated as an advisory component of C03).                 *)
+(***************************************************************************)
+TruncDiv(a, b) == IF a >= 0 THEN a \div b ELSE -((-a) \div b)          \* b > 0, towards zero
+
+UtilOK1(e) ==
+  LET P == e.path IN
+  CASE e.fn = "StripDuplicates" -> e.res = StripDup(P, e.flag)
+    [] e.fn = "ReversePath"     -> e.res = RevPath(P)
+    [] e.fn \in {"TranslatePath64", "OffsetPath"} ->
+          e.res = [i \in 1..Len(P) |-> <<P[i][1] + e.n1, P[i][2] + e.n2>>]
+    [] e.fn = "TranslatePaths64" ->
+          e.resSet = [k \in 1..Len(e.set) |-> [i \in 1..Len(e.set[k]) |-> <<e.set[k][i][1] + e.n1, e.set[k][i][2] + e.n2>>]]
+    [] e.fn = "MakePath64" ->
+          e.res = [i \in 1..(Len(e.vals) \div 2) |-> <<e.vals[2 * i - 1], e.vals[2 * i]>>]
+    \* scale = n1 / 4, products truncated towards zero (scale 1 returns the path itself)
+    [] e.fn = "ScalePath64" ->
+          e.res = [i \in 1..Len(P) |-> <<TruncDiv(P[i][1] * e.n1, 4), TruncDiv(P[i][2] * e.n1, 4)>>]
+    \* an ellipse: empty for a non-positive x radius; y radius defaults to the x radius; `steps` vertices (when
+    \* steps > 2), each within 1.5 units of the ellipse: | |((x-cx) ry, (y-cy) rx)| - rx ry | <= 1.5 max(rx, ry)
+    [] e.fn = "Ellipse64" ->
+          LET c == P[1] rx == e.n1 ry == IF e.n2 <= 0 THEN e.n1 ELSE e.n2 IN
+          IF rx <= 0 THEN e.res = <<>>
+          ELSE /\ (e.n3 > 2 => Len(e.res) = e.n3)
+               /\ Len(e.res) >= 1
+               /\ \A i \in 1..Len(e.res) :
+                    LET u == (e.res[i][1] - c[1]) * ry  v == (e.res[i][2] - c[2]) * rx
+                        t == (3 * Max2(rx, ry) + 1) \div 2  m == rx * ry IN
+                    /\ u * u + v * v <= (m + t) * (m + t)
+                    /\ (m > t => u * u + v * v >= (m - t) * (m - t))
+    [] e.fn = "RectContains"   -> e.b = (P[3][1] >= P[1][1] /\ P[4][1] <= P[2][1] /\ P[3][2] >= P[1][2] /\ P[4][2] <= P[2][2])
+    [] e.fn = "RectIntersects" -> e.b = (Max2(P[1][1], P[3][1]) <= Min2(P[2][1], P[4][1]) /\ Max2(P[1][2], P[3][2]) <= Min2(P[2][2], P[4][2]))
+    [] e.fn = "RectIsEmpty"    -> e.b = (P[2][2] <= P[1][2] \/ P[2][1] <= P[1][1])
+    [] e.fn = "RectMid"        -> e.res = << <<TruncDiv(P[1][1] + P[2][1], 2), TruncDiv(P[1][2] + P[2][2], 2)>> >>
+    [] e.fn = "Path64ToPathD"  -> e.res = P
+    [] OTHER -> FALSE
+
+UtilOK(e, idx) ==
+  /\ Chk("OUT", idx, OutOK(e))
+  /\ Has(e, "ARGS") => Chk("ARGS", idx, e.argsSame)
+  /\ Has(e, "UTIL") => Chk("UTIL", idx, UtilOK1(e))
 =============================================================================
